@@ -52,7 +52,7 @@ type redirectErrorHandler struct {
 func newRedirectErrorHandler(id string, rawConfig map[string]any) (*redirectErrorHandler, error) {
 	type Config struct {
 		To   template.Template `mapstructure:"to"   validate:"required"`
-		Code int               `mapstructure:"code"`
+		Code int               `mapstructure:"code" validate:"omitempty,gte=300,lte=399"`
 	}
 
 	var conf Config
